@@ -122,6 +122,42 @@ def matrix():
         print("%-8s %-4s confirmed=%s  %s" % (sid, m["property"], m.get("confirmed"), row))
 
 
+def table():
+    """Markdown catch table for DESIGN.md."""
+    import re
+    print("| seed | property | change (needs to manifest: see seeded/<id>/README.txt) | caught by |")
+    print("|---|---|---|---|")
+    for sid in sorted(os.listdir(SEEDED)):
+        mp = os.path.join(SEEDED, sid, "meta.json")
+        if not os.path.exists(mp):
+            continue
+        m = json.load(open(mp))
+        try:
+            lines = [l.strip() for l in open(os.path.join(SEEDED, sid, "README.txt")).read().splitlines() if l.strip() and not set(l.strip()) <= set("=-")]
+            cand = [l for l in lines[:12] if re.search(r"(?i)(^change\b|the change|^c\d\d[ab]? *[-:]|regression|^\d\. )", l)]
+            summary = (cand[0] if cand else lines[0])[:140]
+        except Exception:
+            summary = ""
+        try:
+            files = sorted(set(re.findall(r"^\+\+\+ b/.*/([^/\n]+)$", open(os.path.join(SEEDED, sid, "patch.diff")).read(), re.M)))
+            summary = "`" + ", ".join(files) + "` " + summary
+        except Exception:
+            pass
+        cells = []
+        for k, v in sorted(m.get("checks", {}).items()):
+            prop, tier = k.split(":")
+            if v["caught"]:
+                conds = []
+                for t in v.get("violations", []):
+                    mm = re.search(r"counterexample in (\w+)", t)
+                    if mm and mm.group(1) not in conds:
+                        conds.append(mm.group(1))
+                cells.append("**%s** %s (%s)" % (prop, tier, ", ".join(conds[:3]) or "violation"))
+            else:
+                cells.append("%s %s: %s" % (prop, tier, "harness error" if v["exit"] == 2 else "missed"))
+        print("| %s | %s | %s | %s |" % (sid, m["property"], summary.replace("|", "/"), "; ".join(cells)))
+
+
 if __name__ == "__main__":
     a = sys.argv[1:]
     if a[0] == "import":
@@ -140,6 +176,8 @@ if __name__ == "__main__":
         do_run(rest[0], rest[1:], tier, a[0] == "run-in-repo", only)
     elif a[0] == "matrix":
         matrix()
+    elif a[0] == "table":
+        table()
     elif a[0] == "snapshot":
         dst = a[1] if len(a) > 1 else "/tmp/verif_snap"
         shutil.rmtree(dst, ignore_errors=True)
